@@ -43,7 +43,7 @@ FUNCTIONS = ['Algebra.__post_init__', 'Algebra._prepare_signs', '_compute_sign (
 ASSUMPTIONS = ['signature entries range over {-1,0,1} (solver variables); bases, start indices, spellings and dimensions are enumerated',
                'generator names are single hex digits (kingdon\'s own restriction)',
                'reference closed form sign(I,J) = (-1)^{sum_{j in J} popcount(I>>(j+1))} * prod_{k in I&J} s_k, itself proved Clifford in (c)']
-BOUNDS = {'quick': 'default bases d<=7 x start_index {0,1,2} all pairs (d=8: 6000 sampled pairs), custom bases exhaustive d<=2 + 40 sampled d=3..5 + named algebras (start index inferred from the labels); triples d<=3; (c) width 6; (d) all (p,q,r) d<=4, all explicit orderings d<=3, shifted-label custom bases, graded / cse=False configurations; 34 algebras checked after a twin (same (p,q,r) in another ordering, default vs custom basis, other start index; d up to 8) was built and used in the same process',
+BOUNDS = {'quick': 'default bases d<=7 x start_index {0,1,2} all pairs (d=8: 6000 sampled pairs), custom bases exhaustive d<=2 + 40 sampled d=3..5 + named algebras (start index inferred from the labels); triples d<=3; (c) width 6; (d) all (p,q,r) d<=4, all explicit orderings d<=3, shifted-label custom bases, graded / cse=False configurations; 34 algebras checked after a twin (same (p,q,r) in another ordering, default vs custom basis, other start index; d up to 8) was built and used in the same process; algebras checked after a twin algebra was used in the same process; start indices that give a generator the label \'e\'; custom bases with hexadecimal letter labels and the zero-dimensional one',
           'thorough': 'd=8 all 65536 pairs, 400 sampled custom bases, triples d<=4, (c) width 8, (d) all (p,q,r) d<=6, orderings d<=4'}
 OUTSIDE = ['d > 8', 'generator names that are not single hex digits', 'signature entries other than -1, 0, 1']
 OPTS = {'rlimit': 400_000_000, 'canary_every': 3}
